@@ -25,7 +25,7 @@ use std::ops::Deref;
 use std::time::Duration;
 
 thread_local! {
-    static OS_IPC_CHANNELS_FOR_DESERIALIZATION: RefCell<Vec<OsOpaqueIpcChannel>> =
+    static OS_IPC_CHANNELS_FOR_DESERIALIZATION: RefCell<Vec<Option<OsOpaqueIpcChannel>>> =
         RefCell::new(Vec::new())
 }
 thread_local! {
@@ -516,14 +516,7 @@ impl IpcReceiverSet {
                     os_ipc_shared_memory_regions,
                 ) => IpcSelectionResult::MessageReceived(
                     os_receiver_id,
-                    OpaqueIpcMessage {
-                        data,
-                        os_ipc_channels,
-                        os_ipc_shared_memory_regions: os_ipc_shared_memory_regions
-                            .into_iter()
-                            .map(Some)
-                            .collect(),
-                    },
+                    OpaqueIpcMessage::new(data, os_ipc_channels, os_ipc_shared_memory_regions),
                 ),
                 OsIpcSelectionResult::ChannelClosed(os_receiver_id) => {
                     IpcSelectionResult::ChannelClosed(os_receiver_id)
@@ -582,15 +575,14 @@ impl<'de> Deserialize<'de> for IpcSharedMemory {
         if index == usize::MAX {
             Ok(IpcSharedMemory::empty())
         } else {
-            let os_shared_memory = OS_IPC_SHARED_MEMORY_REGIONS_FOR_DESERIALIZATION.with(
-                |os_ipc_shared_memory_regions_for_deserialization| {
-                    // FIXME(pcwalton): This could panic if the data was corrupt and the index was out
-                    // of bounds. We should return an `Err` result instead.
-                    os_ipc_shared_memory_regions_for_deserialization.borrow_mut()[index]
-                        .take()
-                        .unwrap()
-                },
-            );
+            let os_shared_memory = OS_IPC_SHARED_MEMORY_REGIONS_FOR_DESERIALIZATION
+                .with(|os_ipc_shared_memory_regions_for_deserialization| {
+                    os_ipc_shared_memory_regions_for_deserialization
+                        .borrow_mut()
+                        .get_mut(index)
+                        .and_then(Option::take)
+                })
+                .ok_or_else(|| bad_attachment_index::<D::Error>("shared memory region", index))?;
             Ok(IpcSharedMemory {
                 os_shared_memory: Some(os_shared_memory),
             })
@@ -697,7 +689,7 @@ impl IpcSelectionResult {
 /// [to]: #method.to
 pub struct OpaqueIpcMessage {
     data: Vec<u8>,
-    os_ipc_channels: Vec<OsOpaqueIpcChannel>,
+    os_ipc_channels: Vec<Option<OsOpaqueIpcChannel>>,
     os_ipc_shared_memory_regions: Vec<Option<OsIpcSharedMemory>>,
 }
 
@@ -718,7 +710,7 @@ impl OpaqueIpcMessage {
     ) -> OpaqueIpcMessage {
         OpaqueIpcMessage {
             data,
-            os_ipc_channels,
+            os_ipc_channels: os_ipc_channels.into_iter().map(Some).collect(),
             os_ipc_shared_memory_regions: os_ipc_shared_memory_regions
                 .into_iter()
                 .map(Some)
@@ -887,12 +879,7 @@ where
 
     pub fn accept(self) -> Result<(IpcReceiver<T>, T), bincode::Error> {
         let (os_receiver, data, os_channels, os_shared_memory_regions) = self.os_server.accept()?;
-        let value = OpaqueIpcMessage {
-            data,
-            os_ipc_channels: os_channels,
-            os_ipc_shared_memory_regions: os_shared_memory_regions.into_iter().map(Some).collect(),
-        }
-        .to()?;
+        let value = OpaqueIpcMessage::new(data, os_channels, os_shared_memory_regions).to()?;
         Ok((
             IpcReceiver {
                 os_receiver,
@@ -1007,11 +994,9 @@ where
     D: Deserializer<'de>,
 {
     let index: usize = Deserialize::deserialize(deserializer)?;
-    OS_IPC_CHANNELS_FOR_DESERIALIZATION.with(|os_ipc_channels_for_deserialization| {
-        // FIXME(pcwalton): This could panic if the data was corrupt and the index was out of
-        // bounds. We should return an `Err` result instead.
-        Ok(os_ipc_channels_for_deserialization.borrow_mut()[index].to_sender())
-    })
+    take_os_ipc_channel_for_deserialization(index)
+        .map(|mut os_ipc_channel| os_ipc_channel.to_sender())
+        .ok_or_else(|| bad_attachment_index::<D::Error>("channel", index))
 }
 
 fn serialize_os_ipc_receiver<S>(
@@ -1030,17 +1015,34 @@ where
     index.serialize(serializer)
 }
 
+// (`to_receiver` takes `&mut self` on some platforms only.)
+#[allow(unused_mut)]
 fn deserialize_os_ipc_receiver<'de, D>(deserializer: D) -> Result<OsIpcReceiver, D::Error>
 where
     D: Deserializer<'de>,
 {
     let index: usize = Deserialize::deserialize(deserializer)?;
 
+    take_os_ipc_channel_for_deserialization(index)
+        .map(|mut os_ipc_channel| os_ipc_channel.to_receiver())
+        .ok_or_else(|| bad_attachment_index::<D::Error>("channel", index))
+}
+
+/// Take the channel with the given index out of the attachments of the message being
+/// deserialized; `None` if the (possibly corrupt) index is out of bounds or was used before.
+fn take_os_ipc_channel_for_deserialization(index: usize) -> Option<OsOpaqueIpcChannel> {
     OS_IPC_CHANNELS_FOR_DESERIALIZATION.with(|os_ipc_channels_for_deserialization| {
-        // FIXME(pcwalton): This could panic if the data was corrupt and the index was out
-        // of bounds. We should return an `Err` result instead.
-        Ok(os_ipc_channels_for_deserialization.borrow_mut()[index].to_receiver())
+        os_ipc_channels_for_deserialization
+            .borrow_mut()
+            .get_mut(index)
+            .and_then(Option::take)
     })
+}
+
+fn bad_attachment_index<E: serde::de::Error>(what: &str, index: usize) -> E {
+    E::custom(format!(
+        "{what} index {index} is out of bounds or was already used"
+    ))
 }
 
 /// Lengths of the four per-thread attachment tables of the calling thread (serialisation channels,
